@@ -557,7 +557,7 @@ pub fn run(ctx: &Ctx) -> i32 {
         tier,
         seed: ctx.seed,
         level: "exploration",
-        rule: "scenario = victim + honest bystander (real Networks) and an admitted adversary endpoint on the fabric; the adversary runs a seeded programme of 40 (thorough 120) actions from {random bytes, valid request mutated at 1-8 positions, valid request truncated at a swept offset then finish/reset/left open, length prefixes 0/1/max-1/max/max+1/2^31/2^32-1, bincode headers announcing 2^60 entries, complete request with hostile route/header text (1-4 byte UTF-8 sequences swept across byte offsets 0..300, up to 8 kB) then stop the response stream or reset the request stream before/while/after the handler runs, open and never write, 100/101/300 streams, uni streams + datagrams, abrupt close with requests in flight + reconnect, well-formed probe} concurrently with honest RPCs in both directions; monitors: process-wide panic hook, is_closed(), C02 oracle + latency bound (20x baseline) on honest RPCs, correctness of well-formed probes on fresh streams while the adversary holds < 50 streams, and 'every handler start attributed to the adversary equals a complete valid request it sent (independent parser)'; distinct by (frame limit, loss, number of action kinds)".into(),
+        rule: "scenario = victim + honest bystander (real Networks) and an admitted adversary endpoint on the fabric; the adversary runs a seeded programme of 40 (thorough 120) actions from {random bytes, valid request mutated at 1-8 positions, valid request truncated at a swept offset then finish/reset/left open, length prefixes 0/1/max-1/max/max+1/2^31/2^32-1, bincode headers announcing 2^60 entries, complete request with hostile route/header text (1-4 byte UTF-8 sequences swept across byte offsets 0..300, up to 8 kB) then stop the response stream or reset the request stream before/while/after the handler runs, open and never write, 100/101/300 streams, uni streams + datagrams, abrupt close with requests in flight + reconnect, well-formed probe} concurrently with honest RPCs in both directions; monitors: process-wide panic hook, is_closed(), C02 oracle + latency bound (20x baseline) on honest RPCs, correctness of well-formed probes on fresh streams while the adversary holds < 50 streams, and 'every handler start attributed to the adversary equals a complete valid request it sent (independent parser)'; distinct by (frame limit, loss, number of action kinds) A scenario that outlives the watchdog is diagnosed: CPU-bound with the same innermost anemo:: frame in 3 gdb samples = livelock in the library (violation); otherwise inconclusive. The real code runs in a supervised child process (abort on an absurd allocation = violation).".into(),
         assumptions: vec!["only inputs expressible through QUIC streams/datagrams of an authenticated peer; memory exhaustion is not judged".into()],
         summary,
         extra: Default::default(),
